@@ -7,7 +7,7 @@ META = {
     "level": "model_checking",
     "technique": "TLA+ spec of crash and restart of core.BlockChain (ChainCrash.tla over Chain.tla) model-checked with TLC; TLC behaviours (chain shape, commit points, snapshot layer, freezer progress, crash points, both schemes) replayed on a real BlockChain over pebble+freezer with stopWithoutSaving, then re-import compared with a never-crashed node",
     "text": "ChainCrash.tla adds to Chain.tla what a crash distinguishes: trie commit points (hash scheme) / disk layer (path scheme), the persistent flat-state layer, chain-freezer progress, and CrashReopen = stopWithoutSaving + NewBlockChain (loadLastState, rewindHead past the snapshot layer, ancient-store truncation). TLC checks over all main/side chain lengths, commit points, freeze thresholds, crash points (up to two crashes) and both schemes with snapshots on/off that after reopening the head state is available, the header head is at or beyond the block head, the number index is consistent, nothing at or below the last persisted state is lost, the ancient store matches the heads, and importing the rest of the main line yields the never-crashed state. TLC-sampled behaviours over longer chains are executed on the real code (pebble + freezer on disk, crash exactly as core/blockchain_repair_test.go) with the projected state compared after every call, followed by re-import of the main line and comparison of head root and account data with a control node.",
-    "note": "Trusts TLC and the projection in harness/cmd/c39. Crash points: call boundaries in the freezer scenarios (import batch, trie commit, snapshot flatten, freezer cycle) and every key-value write boundary inside a call on random trees (memory store, crash images judged by the Rec* invariants of ChainTrace.tla); torn key-value batches and torn freezer files are not generated (C24/C20 territory). Snap-sync pivots are not modelled. Runs reopen in child processes because log.Crit exits. Index entries of an abandoned branch after a repair (C38-F1) are pending, see NOTES.md.",
+    "note": "Trusts TLC and the projection in harness/cmd/c39. Crash points: call boundaries in the freezer scenarios (import batch, trie commit, snapshot flatten, freezer cycle) and every key-value write boundary inside a call on random trees (memory store, crash images judged by the Rec* invariants of ChainTrace.tla); torn key-value batches and torn freezer files are not generated (C24/C20 territory). Snap-sync pivots are not modelled. Runs reopen in child processes because log.Crit exits. Open findings C38-F1 (index entries of an abandoned branch after a repair) and C39-F4 (crash inside reorg) are reported through ctx.known_finding, see NOTES.md.",
     "design_ref": "3.6 C39",
 }
 
@@ -53,7 +53,7 @@ def run(ctx):
                                           name="ChainTraceRec")
     if not ok:
         ctx.reject_trace("chain/ChainTrace", tp, consumed, r, cfg="chain/ChainTraceRec")
-    # TODO-KNOWN-FINDING C39-F4 (pending coordinator decision): kept replays of crashes inside reorg / SetCanonical
+    # open finding C39-F4 (known_findings.json): kept replays of crashes inside reorg / SetCanonical
     fp = os.path.join(ctx.scratch, "C39-F4.ndjson")
     fs, _ = ctx.drive(drv38, ["-mode", "scenario", "-in", os.path.join(os.path.dirname(os.path.dirname(os.path.abspath(__file__))), "spec", "chain", "findings", "C39-F4.json"),
                               "-trace", fp], name="c38-C39-F4", timeout=1800)
@@ -65,16 +65,13 @@ def run(ctx):
         viol = r2.violated or ""
         if ok2:
             ctx.notes.append("C39-F4: no longer reproduces (strict Rec* invariants hold on the kept replay)")
-        elif any(e in viol for e in ("RecCanonHasHeads", "RecCanonLinked", "RecCanonEndsAtHead", "RecStopsStrict", "RecHealsStrict", "RecLookupSound")):
-            line = ("PENDING-FINDING property=C39 C39-F4 reproduced on the real code (%s): a crash between the batches of reorg/SetCanonical "
-                    "leaves a head without number index entries (Stop then dereferences nil)" % viol.strip()[:60])
-            if not ctx.known_finding("C39-F4", line):
-                print(line)   # TODO-KNOWN-FINDING: pending until known_findings.json lists C39-F4
-            ctx.notes.append(line)
+        elif any(e in viol for e in ("RecCanonHasHeads", "RecCanonLinked", "RecCanonEndsAtHead", "RecStopsStrict", "RecHealsStrict", "RecLookupSound")) \
+                and ctx.known_finding("C39-F4", viol):
+            ctx.notes.append("C39-F4 reproduced on the real code (%s)" % viol.strip()[:60])
         else:
-            ctx.reject_trace("chain/ChainTrace", fp, c2, r2, cfg="chain/ChainTraceRecStrict", desc="C39-F4 replay violates an unexpected property: %s" % viol)
+            ctx.reject_trace("chain/ChainTrace", fp, c2, r2, cfg="chain/ChainTraceRecStrict", desc="C39-F4 replay: strict specification rejects the real trace (%s) and the finding is not listed as open" % viol)
     return ctx.finish(rule="MC: all scenarios of the bound (main line <= MaxC, side chain <= MaxS, any order of import/commit/flatten/freeze/crash, <= 2 crashes); R: TLC-sampled behaviours on longer chains, each followed by re-import and comparison with a never-crashed node",
                       assumptions=["freezer scenarios: crash points are call boundaries; crash inside a call: every key-value write boundary of the call (memory store, no freezer); no torn batches / torn freezer files",
-                                   "C39-F4 pending: index claims on crash images are made for calls that do not reorganise or rewind",
+                                   "open finding C39-F4: index claims on crash images are made for calls that do not reorganise or rewind",
                                    "no snap-sync pivot; ethash faker; pebble + freezer on local disk",
-                                   "C38-F1 pending: strict index invariants are checked until a head is written without reorg below a higher head header"])
+                                   "open finding C38-F1: strict index invariants are checked until a head is written without reorg below a higher head header (ghost gh.f1)"])
